@@ -650,8 +650,13 @@ func (e Evaluator) static(c Clause) error {
 	case "null":
 		return nil
 	case "leaf":
-		if _, _, ok := e.F.Col(c.Leaf.Col); !ok {
+		col, _, ok := e.F.Col(c.Leaf.Col)
+		if !ok {
 			return fmt.Errorf("unknown column")
+		}
+		// an undeclared constant against a declared enum is an error whatever the rows hold
+		if l := c.Leaf; col.Kind == Enum && col.EnumVals != nil && l.ArgKind == "string" && isRel(l.Cmp) && rank(col, l.S) < 0 {
+			return fmt.Errorf("undeclared enum constant")
 		}
 		return nil
 	case "not":
